@@ -18,6 +18,9 @@ type Clause struct {
 	Expr  ast.Expr
 	Line  int
 	File  string
+	// Assumed: a loop "assume" — asserted at the loop head without proof (definitions of spec functions over
+	// locals the precondition cannot name); listed as an assumption.
+	Assumed bool
 }
 
 type LoopSpec struct {
@@ -499,6 +502,11 @@ func (C *Contracts) parseFile(path, pkgPath string) error {
 					curCall.Assume = append(curCall.Assume, c)
 					break
 				}
+				if curLemma == nil && kw == "assume" && curLoop != nil {
+					c.Assumed = true
+					curLoop.Invariants = append(curLoop.Invariants, c)
+					break
+				}
 				if curLemma == nil {
 					return fmt.Errorf("%s:%d: %s outside lemma", path, l.line, kw)
 				}
@@ -567,11 +575,13 @@ func (C *Contracts) parseFile(path, pkgPath string) error {
 			var n int
 			fmt.Sscanf(rest, "%d", &n)
 			curLoop = &LoopSpec{Ordinal: n}
+			curCall = nil
 			curF.Loops[n] = curLoop
 		case "iter":
 			var n int
 			fmt.Sscanf(rest, "%d", &n)
 			curLoop = &LoopSpec{Ordinal: n}
+			curCall = nil
 			curF.Iters[n] = curLoop
 		case "at":
 			// at <callee> <n>
@@ -579,6 +589,7 @@ func (C *Contracts) parseFile(path, pkgPath string) error {
 			var n int
 			fmt.Sscanf(rest, "%s %d", &callee, &n)
 			curCall = &CallSpec{Callee: callee, Ordinal: n}
+			curLoop = nil
 			curF.Calls = append(curF.Calls, curCall)
 		case "pred":
 			// pred name(params) = expr
@@ -612,6 +623,9 @@ func (C *Contracts) parseFile(path, pkgPath string) error {
 			c, err := mk(body, l.line)
 			if err != nil {
 				return err
+			}
+			if old, dup := C.Preds[name]; dup {
+				return fmt.Errorf("%s:%d: predicate %s is already defined (package %s): predicate names are global", path, l.line, name, old.Pkg)
 			}
 			C.Preds[name] = &PredDef{Name: name, Params: params, Body: c, Pkg: pkgPath, Opaque: opaquePred}
 			curF, curLoop, curLemma, curAxiom = nil, nil, nil, nil
